@@ -391,7 +391,7 @@ def main(argv: Optional[List[str]] = None) -> int:
         import subprocess
 
         env = dict(os.environ, VERIF_CHILD="1", VERIF_NO_EVIDENCE="1",
-                   VERIF_BUDGET_SCALE=str(getattr(mod, "UNDER_O_SCALE", 0.06)))
+                   VERIF_BUDGET_SCALE=str(getattr(mod, "UNDER_O_SCALE", 0.06 if tier == "quick" else 0.015)))
         try:
             cp = subprocess.run([sys.executable, "-O", "-m", "vlib.runner", pid, tier, "--shards", "2", "--seed", str(seed)],
                                 env=env, stdout=subprocess.PIPE, stderr=subprocess.STDOUT, text=True,
